@@ -22,7 +22,9 @@ CONSTANTS Tier, Emit, Broken
 
 \* ------------------------------------------------------------- catalogue
 FnR(id, n) == [id |-> id, name |-> n, sys |-> n \o "_", file |-> n \o ".c", start |-> id]
-MapR(id) == [id |-> id, start |-> 16 * id, limit |-> 16 * id + 8, off |-> id - 1, file |-> "bin", build |-> "B",
+\* every other mapping is the relocated kernel image, whose name the decoder inspects (and must leave as it is)
+MapR(id) == [id |-> id, start |-> 16 * id, limit |-> 16 * id + 8, off |-> id - 1,
+             file |-> IF id % 2 = 0 THEN "[kernel.kallsyms]_stext" ELSE "bin", build |-> "B",
              hasfn |-> TRUE, hasfile |-> id = 1, hasline |-> FALSE, hasinl |-> id # 1]
 LineR(fn, l, c) == [fn |-> fn, line |-> l, col |-> c]
 LocR(id, m, a, lines, fo) == [id |-> id, map |-> m, addr |-> a, lines |-> lines, folded |-> fo]
